@@ -87,6 +87,8 @@ pub struct Node {
     /// The application's apply worker is stalled (a fault that stops in the fair suffix):
     /// committed entries stay queued and `advance_apply_to` is not called.
     pub apply_hold: bool,
+    /// Highest Ready number this incarnation has reported persisted (async mode).
+    pub last_notified: u64,
 }
 
 impl Node {
@@ -147,10 +149,16 @@ pub enum Action {
     Pipe(usize),
     PipeForce(usize),
     Persist(usize, bool),
+    /// A duplicate / late persistence notice: `on_persist_ready(n)` for a number already reported
+    /// (n = last reported - back), while newer Readys may still be unsynced.
+    PersistStale(usize, u64),
     Fsync(usize),
     Apply(usize, usize),
     Propose(usize, usize),
     ProposeConf(usize, ConfSpec),
+    /// One `MsgPropose` carrying several entries (what `RawNode::step` accepts from an application
+    /// that batches its proposals): `None` = an ordinary entry of that size, `Some` = a change.
+    ProposeBatch(usize, Vec<(usize, Option<ConfSpec>)>),
     ReadIndex(usize),
     Transfer(usize, u64),
     Campaign(usize),
@@ -270,6 +278,7 @@ impl Sim {
             async_recs: VecDeque::new(),
             apply_q: VecDeque::new(),
             apply_hold: false,
+            last_notified: 0,
             conf: Rc::new(Conf::default()),
             stopped: false,
             crash_mid_send: false,
@@ -430,6 +439,7 @@ impl Sim {
         n.async_recs.clear();
         n.apply_q.clear();
         n.apply_hold = false;
+        n.last_notified = 0;
         n.stage = Stage::Idle;
         n.crash_mid_send = false;
         n.snap_out.clear();
@@ -1036,6 +1046,7 @@ impl Sim {
         }
         let recs: Vec<AsyncRec> = self.nodes[v].async_recs.drain(..).collect();
         let maxn = recs.last().unwrap().number;
+        self.nodes[v].last_notified = maxn;
         if one_by_one {
             for r in &recs {
                 let n = r.number;
@@ -1140,6 +1151,17 @@ impl Sim {
             Action::Pipe(v) => self.do_pipe(*v, false),
             Action::PipeForce(v) => self.do_pipe(*v, true),
             Action::Persist(v, one) => self.do_persist(*v, *one),
+            Action::PersistStale(v, back) => {
+                let v = *v;
+                let nd = &self.nodes[v];
+                if !nd.idle() || nd.mode != AppMode::Async || nd.last_notified == 0 {
+                    return false;
+                }
+                let n = nd.last_notified.saturating_sub(*back).max(1);
+                self.mon.stats.inc("app.stale_persist_notices");
+                self.call(v, Op::OnPersistReady(n), |raw| raw.on_persist_ready(n), |_| Res::Unit);
+                true
+            }
             Action::Fsync(v) => {
                 // Background flush. Only at Idle in the synchronous modes (there everything
                 // written has already been synced when required) so that "durable" never runs
@@ -1232,6 +1254,70 @@ impl Sim {
                         .is_some()
                     }
                 }
+            }
+            Action::ProposeBatch(v, items) => {
+                let v = *v;
+                if !self.nodes[v].idle() || items.is_empty() {
+                    return false;
+                }
+                let mut m = Message::default();
+                m.set_msg_type(MessageType::MsgPropose);
+                m.from = self.nodes[v].id;
+                let mut ents = Vec::new();
+                for (size, spec) in items {
+                    let n = &mut self.nodes[v];
+                    n.prop_ctr += 1;
+                    let mut e = Entry::default();
+                    match spec {
+                        None => {
+                            let mut data = format!("p{}.{}.{}", n.id, n.inc, n.prop_ctr).into_bytes();
+                            while data.len() < *size {
+                                data.push(b'.');
+                            }
+                            e.set_entry_type(EntryType::EntryNormal);
+                            e.data = data.into();
+                        }
+                        Some(ConfSpec::V1(t, id)) => {
+                            let ctx = format!("c{}.{}.{}", n.id, n.inc, n.prop_ctr).into_bytes();
+                            let mut cc = ConfChange::default();
+                            cc.set_change_type(*t);
+                            cc.node_id = *id;
+                            cc.set_context(ctx.into());
+                            e.set_entry_type(EntryType::EntryConfChange);
+                            e.data = cc.write_to_bytes().unwrap().into();
+                        }
+                        Some(ConfSpec::V2(tr, changes)) => {
+                            let ctx = format!("c{}.{}.{}", n.id, n.inc, n.prop_ctr).into_bytes();
+                            let mut cc = ConfChangeV2::default();
+                            cc.set_transition(*tr);
+                            for (t, id) in changes {
+                                let mut s = raft::eraftpb::ConfChangeSingle::default();
+                                s.set_change_type(*t);
+                                s.node_id = *id;
+                                cc.mut_changes().push(s);
+                            }
+                            if !changes.is_empty() {
+                                cc.set_context(ctx.into());
+                            }
+                            e.set_entry_type(EntryType::EntryConfChangeV2);
+                            e.data = cc.write_to_bytes().unwrap().into();
+                        }
+                    }
+                    ents.push(e);
+                }
+                m.set_entries(ents.into());
+                self.mon.stats.inc("app.batched_proposals");
+                let m2 = m.clone();
+                self.call(
+                    v,
+                    Op::Step(Box::new(m)),
+                    |raw| raw.step(m2),
+                    |r| match r {
+                        Ok(_) => Res::Ok,
+                        Err(e) => Res::Err(format!("{:?}", e)),
+                    },
+                )
+                .is_some()
             }
             Action::ReadIndex(v) => {
                 let v = *v;
